@@ -1,2 +1,58 @@
-From TV Require Import Base.
-Example C12_placeholder : True. Proof. exact I. Qed.
+(* C12 -- simulation time is paced against real time by the configured speed.
+   Speed = num/den (any positive rational), exact integer arithmetic; the code computes the same
+   quantities in floats (modelled, not verified: the correspondence uses speeds and times for which
+   the float computation is exact).  Property theorems only. *)
+From TV Require Import Base Model.Wiring Model.Ticker Model.Master Proofs.MasterP.
+Open Scope Z_scope.
+
+(* never early: whenever the timer starts the tick for simulation time [when], real time has
+   advanced by at least (when - t_prev)/speed since the previous tick ended -- whatever the
+   processing of ticks costs, whatever else happened in between *)
+Theorem C12_never_early : forall conns comps initial num den,
+  0 < num -> 0 < den ->
+  forall m now r m' o when roots,
+    MInv initial num den m now -> now <= r -> env_ok m r ITimer ->
+    step conns comps initial num den m r ITimer = (m', o) -> In (OTickStart when roots) o ->
+    (when - ma_t m) * den <= (r - ma_r m) * num.
+Proof.
+  intros conns comps initial num den Hn Hd m now r m' o when roots HI Hr He Hs Hin.
+  apply (timer_tick_spec conns comps initial num den Hn m now r m' o when roots HI Hr He Hs Hin).
+Qed.
+
+(* exactly then when processing takes no time: the sleep armed when a tick has just ended (real
+   time r = end of tick) ends at end + ceil((when - t_prev)/speed), or at once if that is past *)
+Theorem C12_exact : forall num den m r m' d,
+  plan num den m r = (m', [OArm d]) ->
+  exists when roots, first_wakeups (mw m) = Some (when, roots) /\ d = Z.max r (due_real num den m when).
+Proof. intros num den m r m' d. apply plan_deadline. Qed.
+
+(* an interrupt is stamped with the simulation time that corresponds to the real time of its
+   arrival, rounded down to a whole nanosecond *)
+Theorem C12_stamp : forall num den, 0 < num -> 0 < den -> forall m r, ma_r m <= r ->
+  (stamp num den m r - ma_t m) * den <= (r - ma_r m) * num < (stamp num den m r - ma_t m + 1) * den.
+Proof. intros num den Hn Hd m r Hr. apply stamp_bounds; assumption. Qed.
+
+(* ... and such a stamp is already due: the scheduler need not wait for it *)
+Theorem C12_stamp_due : forall num den, 0 < num -> 0 < den -> forall m r, ma_r m <= r ->
+  due_real num den m (stamp num den m r) <= r.
+Proof. intros num den Hn Hd m r Hr. apply stamp_due; assumption. Qed.
+
+(* with negligible processing cost, simulation time = initial + speed x elapsed real time at
+   every tick: one step of the telescoping sum, for speeds where the division is exact *)
+Theorem C12_linear_step : forall num den m when,
+  0 < num -> 0 < den -> ma_t m <= when -> ((when - ma_t m) * den) mod num = 0 ->
+  (due_real num den m when - ma_r m) * num = (when - ma_t m) * den.
+Proof.
+  intros num den m when Hn Hd Hle Hmod. unfold due_real, cdiv.
+  replace (ma_r m + ((when - ma_t m) * den + num - 1) / num - ma_r m) with (((when - ma_t m) * den + num - 1) / num) by lia.
+  assert (H := Z.div_mod ((when - ma_t m) * den) num). rewrite Hmod in H.
+  assert (H2 : ((when - ma_t m) * den + num - 1) / num = (when - ma_t m) * den / num).
+  { set (x := (when - ma_t m) * den) in *. assert (Hx : x = num * (x / num)) by lia.
+    rewrite Hx at 1. replace (num * (x / num) + num - 1) with ((x / num) * num + (num - 1)) by lia.
+    rewrite Z.div_add_l by lia. rewrite (Z.div_small (num - 1) num) by lia. lia. }
+  rewrite H2. lia.
+Qed.
+
+Example C12_nonvacuous : due_real 2 1 {| mp := PIdle; mw := []; ma_t := 100; ma_r := 1000; m_err := false |} 300 = 1100
+                         /\ stamp 1 2 {| mp := PIdle; mw := []; ma_t := 100; ma_r := 1000; m_err := false |} 1007 = 103.
+Proof. vm_compute. split; reflexivity. Qed.
